@@ -311,7 +311,12 @@ func c17Doc(c *fw.Ctx) (corpusDoc, string) {
 		d.Origin = "mutated"
 		return d, "invalid"
 	}
-	return genDoc(c.R, format, variant == 3), "valid"
+	d := genDoc(c.R, format, variant == 3)
+	if (format == "srt" || format == "webvtt" || format == "ssa") && !bytes.Contains(d.Data, []byte("\r")) && c.R.Bool() {
+		d.Data = mixEOL(c.R, d.Data) // line ends of every kind in one document
+		d.Origin += ", mixed line ends"
+	}
+	return d, "valid"
 }
 
 func c17Run(c *fw.Ctx) fw.Outcome {
@@ -496,6 +501,21 @@ func c17Run(c *fw.Ctx) fw.Outcome {
 			return io.LimitReader(bytes.NewReader(append(append([]byte(nil), d.Data...), "tail"...)), int64(n))
 		}},
 		{"io.SectionReader", func() io.Reader { return io.NewSectionReader(bytes.NewReader(d.Data), 0, int64(n)) }},
+		{"a reader that cannot seek, tail delivered with EOF", func() io.Reader { return struct{ io.Reader }{newSched(d.Data, []int{n / 2}, true, nil)} }},
+		{"a reader that cannot seek, 188-byte reads, last one with EOF", func() io.Reader {
+			var cuts []int
+			for p := 188; p < n; p += 188 {
+				cuts = append(cuts, p)
+			}
+			return struct{ io.Reader }{newSched(d.Data, cuts, true, nil)}
+		}},
+		{"a reader that cannot seek, 1000-byte reads", func() io.Reader {
+			var cuts []int
+			for p := 1000; p < n; p += 1000 {
+				cuts = append(cuts, p)
+			}
+			return struct{ io.Reader }{newSched(d.Data, cuts, false, nil)}
+		}},
 		{"iotest.HalfReader", func() io.Reader { return iotest.HalfReader(bytes.NewReader(d.Data)) }},
 		{"iotest.DataErrReader", func() io.Reader { return iotest.DataErrReader(bytes.NewReader(d.Data)) }},
 	}
